@@ -566,11 +566,12 @@ PROPERTY_NOTES["C08"] = {
 }
 
 # ------------------------------------------------------------------------------------------------ C13 HTTP front door
-_scn_http = dict(_scn, harness="harness/scn_http.c", unwindset=dict(_scn["unwindset"], **{"br_writev.0": 14}),
+_scn_http = dict(_scn, harness="harness/scn_http.c", unwindset=dict(_scn["unwindset"], **{"br_writev.0": 14, "memchr.0": 10}),
                  units=_PROTO_UNITS + ["src/websocket_peer.c", "src/websocket.c", "src/compression.c", "src/utf8_checker.c", "src/linux/jet_endian.c", "src/base64.c", "src/http_server.c"],
                  stubs=_SCN_STUBS + ["http_parser_execute: contract stub (reports the URL at most once, parses the whole line or stops early); http_parser_parse_url: whole string is the path",
                                      "buffered reader of the connection: close/writev/read_until/set_error_handler record"])
-for _m, _nm, _rch in ((0, "valid_line", ["accepted"]), (1, "error_after_url", ["refused"]), (2, "error_before_url", ["refused"]), (3, "other_path", ["refused"])):
+for _m, _nm, _rch in ((0, "valid_line", ["accepted"]), (1, "error_after_url", ["refused"]), (2, "error_before_url", ["refused"]), (3, "other_path", ["refused"]),
+                      (4, "lf_terminated_line_with_header", [])):
     O(id="C13.request_line_" + _nm, props=["C13", "C07", "C05"], entry="harness_request_line", reach=_rch, defines=["PARSER_MODE=%d" % _m],
       functions=["read_start_line", "on_url", "find_url_handler", "send_http_error_response", "get_response", "free_connection", "alloc_websocket_peer", "init_websocket_peer", "websocket_init", "init_peer", "free_websocket_peer_on_error", "websocket_close"],
       symbolic="(parser verdict fixed per obligation: %s)" % _nm, assumes=["connection allocation and initialisation succeed"],
